@@ -15,6 +15,7 @@ import (
 	"google.golang.org/protobuf/types/known/anypb"
 
 	"verif/sim/core"
+	"verif/sim/ref"
 )
 
 // C02 — handler errors reach the client with code, message, details and
@@ -141,6 +142,20 @@ func genErrPlan(t *core.Tape, notes map[string]int, bin map[string][][]byte) *Er
 			e.Details = append(e.Details, DetailPlan{Kind: t.Choose(4, "detail.kind"), Data: t.Bytes(t.Choose(40, "detail.n"), 1+t.Choose(2, "dk"), "detail")})
 		}
 		e.Meta = genMeta(t, "X-M", bin)
+		if t.Bool(1, 8, "err.meta.raw.key") {
+			// the same field name once more, under a map key written by hand in
+			// another spelling: http.Header is a plain map, and a value stored
+			// that way is metadata the application attached like any other
+			name := "X-M-Raw"
+			for _, k := range ref.SortedKeys(e.Meta) {
+				if !strings.HasSuffix(k, "-Bin") {
+					name = k
+					break
+				}
+			}
+			e.RawMeta = http.Header{strings.ToLower(name): {"raw-" + genValue(t)}}
+			notes["err_meta_key_spelled_two_ways"]++
+		}
 		if nd > 0 {
 			notes["err_with_details"]++
 		}
@@ -347,8 +362,13 @@ func extraValues(got http.Header, attached ...http.Header) (string, bool) {
 	for _, k := range keys {
 		budget := map[string]int{}
 		for _, a := range attached {
-			for _, v := range a[k] {
-				budget[v]++
+			for ak, vs := range a {
+				if http.CanonicalHeaderKey(ak) != k {
+					continue // (keys written by hand may be spelled differently)
+				}
+				for _, v := range vs {
+					budget[v]++
+				}
 			}
 		}
 		for _, v := range got[k] {
@@ -536,6 +556,9 @@ func checkC02(w *World, st core.Status, r *RunResult) []Violation {
 					}
 				}
 			}
+			if why, ok := containsValues(ce.Meta(), p.HErr.RawMeta); !ok {
+				add("metadata-missing/raw-key", why)
+			}
 			if why, ok := containsValues(ce.Meta(), p.HErr.Meta); !ok {
 				add("metadata-missing", why)
 			}
@@ -689,10 +712,10 @@ func checkC11(w *World, st core.Status, r *RunResult) []Violation {
 			if why, ok := containsValues(ce.Meta(), p.HErr.Meta); !ok {
 				add("error-metadata", why)
 			}
-			if why, ok := extraValues(ce.Meta(), p.HErr.Meta, p.RespHeader, p.RespTrailer); !ok {
+			if why, ok := extraValues(ce.Meta(), p.HErr.Meta, p.HErr.RawMeta, p.RespHeader, p.RespTrailer); !ok {
 				add("error-metadata-extra", why)
 			}
-			if why, ok := extraValues(o.RespTrailer, p.HErr.Meta, p.RespHeader, p.RespTrailer); !ok {
+			if why, ok := extraValues(o.RespTrailer, p.HErr.Meta, p.HErr.RawMeta, p.RespHeader, p.RespTrailer); !ok {
 				add("response-trailer-extra", why)
 			}
 		}
